@@ -41,6 +41,44 @@ theorem concurrent_calls_hold_disjoint_objects (ops : List Op) (i j : Nat) (a b 
   have h := (every_interleaving_owned ops).1
   exact flatten_disjoint _ i j a b (List.nodup_append.mp h).2.1 hij ha hb
 
+/-- the sugar helpers read the messages before they hand the issues to the pool (regenerated go/ast fact) -/
+theorem helpers_read_before_free : Gen.helpersReadBeforeFree = true := by decide
+
+/-- …so, at every point of every interleaving, every object `Sanitize…AndCollect` reads is still owned by
+    the caller when it is read: no concurrent call can have been handed it -/
+theorem helpers_read_only_owned_objects (ops : List Op) (r : Nat) :
+    ∀ p ∈ (sanitizeAndCollect Gen.collectMapSkipsFirst Gen.helpersReadBeforeFree (run Gen.collectMapSkipsFirst ops) r).2, p.2 = true := by
+  rw [helpers_read_before_free]
+  intro p hp
+  have hown := (every_interleaving_owned ops).1
+  generalize run Gen.collectMapSkipsFirst ops = s at hp hown
+  simp only [sanitizeAndCollect, if_true, List.mem_map] at hp
+  obtain ⟨id, hid, rfl⟩ := hp
+  cases hl : s.live[r]? with
+  | none => simp [hl] at hid
+  | some ids =>
+    simp only [hl, Option.getD_some] at hid
+    have hflat : id ∈ s.live.flatten := List.mem_flatten.mpr ⟨ids, List.mem_of_getElem? hl, hid⟩
+    have hdis := (List.nodup_append.mp hown).2.2
+    have hnot : id ∉ s.pool := fun hin => hdis id hin id hflat rfl
+    simp [hnot]
+
+/-- the other order is wrong: a helper that frees first reads ONLY objects that are already in the pool -/
+theorem free_then_read_reads_pooled_objects (skips : Bool) (s : State) (r : Nat) :
+    ∀ p ∈ (sanitizeAndCollect skips false s r).2, p.2 = false := by
+  intro p hp
+  simp only [sanitizeAndCollect, Bool.false_eq_true, if_false, List.mem_map] at hp
+  obtain ⟨id, hid, rfl⟩ := hp
+  cases hl : s.live[r]? with
+  | none => simp [hl] at hid
+  | some ids =>
+    simp only [hl, Option.getD_some] at hid
+    simp only [step, hl]
+    cases skips <;> simp [hid]
+
+example : (sanitizeAndCollect true true { pool := [], live := [[0, 1]], next := 2 } 0).2 = [(0, true), (1, true)] ∧
+    (sanitizeAndCollect true false { pool := [], live := [[0, 1]], next := 2 } 0).2 = [(0, false), (1, false)] := by decide
+
 /-- executions never write the schema object or a package-level variable (regenerated go/ast fact):
     a shared schema is only read -/
 theorem shared_schema_only_read : Gen.schemaWrites = [] := by decide
